@@ -5,7 +5,7 @@
    Specification side (module SpecParse, written from the tables of IPMI v2.0 13.x/22.x and DCMI 1.5 6.x):
    [request_body], [lan_request], [datagram], [open_session_request], [rakp_message_1], [rakp_message_3].
    [wf_request]: the caller's field values are in the ranges the specification gives the fields. *)
-From BMC Require Import Base Prim Layers Layers2 Serialize SpecRequests Packet RequestProofs.
+From BMC Require Import Base Prim Layers Layers2 Serialize SpecRequests Packet RequestProofs Conn ConnProofs.
 From BMCProps Require Import TieOps.
 Import SpecParse.
 
@@ -59,6 +59,18 @@ Proof. exact rakp3_roundtrip. Qed.
 Theorem C06_long_username_refused : forall v buf, (16 < length (r1_username v))%nat -> ser_rakp1 v buf = Err.
 Proof. exact rakp1_long_username_refused. Qed.
 (* the operation table in the source now is the specification's command table (NetFn, command, body code) *)
+(* Session.Close: the Close Session request the session sends (session_close = session_send of this request under
+   NetFn App / command 3Ch, C03 for the datagram around it) carries the MANAGED SYSTEM's session ID - the ID the BMC
+   allocated, not the console's own - and the specification's parser (22.19) reads it back as such *)
+Theorem C06_close_names_bmc_session : forall s,
+  0 < s_remote_id s < 4294967296 ->
+  ser_request (close_request s) [] = Ok (put_le32 (s_remote_id s)) /\
+  request_body KCloseSession (put_le32 (s_remote_id s)) = Some (RqCloseSession (s_remote_id s) 0).
+Proof. exact close_names_bmc_session. Qed.
+Theorem C06_close_operation : op_close_session = {| op_fn := 6; op_body := 0; op_ent := 0; op_cmd := 0x3c |} /\
+  forall s seq ivs script, session_close s seq ivs script = session_send s seq ivs op_close_session 0 (close_request s) script.
+Proof. split; reflexivity. Qed.
+
 Theorem C06_operation_table_tie :
   forallb (fun c => opt_eqb (cmd_op (code_name c)) (spec_row c)) all_commands = true /\ (forall c, In c all_commands).
 Proof. exact (conj tie_operation_table all_commands_complete). Qed.
